@@ -18,7 +18,10 @@ Every connection is an actor that walks through the critical sections of the cod
   hijack              `go hijackConnHandler` · handler returns · `c.Close()` (KeepHijackedConns off) /
                       the application closes the kept connection (idempotent: `perIPConn.Close` nils its Conn)
 
-Every `c.Close()` event carries the outcome of the transport's own `Close` (error or not).
+Every `c.Close()` event carries the outcome of the transport's own `Close` (error or not).  A close event stands for
+the owner's whole `perIPConn.Close`; it is linearised at `c.Conn = nil` (set under the wrapper's lock BEFORE the
+transport is closed — regenerated fact `Gen.perIPConn_Close_nilOutUnderLockBeforeTransportClose`), so every other
+caller of `Close`, however it interleaves with the owner's transport close, is the no-op `dupClose`.
 
 The add-then-test shape of `tryAcquireConcurrency` and of `Register` is kept: between the add and the test the
 gauge / the per-IP count may exceed the limit (a reachable state of the model).
@@ -155,6 +158,10 @@ inductive Act
   | hijackReturn
   | hijackClose (err : Bool)
   | userClose (err : Bool)
+  /-- another party calls `Close` on a wrapper whose `Conn` is already nil — at any moment after the owner's
+      `c.Conn = nil` (taken under the wrapper's lock), in particular while the owner is still inside the transport's
+      `Close`: `cc == nil`, nothing happens -/
+  | dupClose
   deriving DecidableEq, Repr
 
 inductive Ev
@@ -302,6 +309,7 @@ def act (s : State) (c : Conn) : Act → Option (State × Conn)
     if c.hj = .returned ∧ s.cfg.keep = false then some (closeS s c err, { closeC c with hj := .finished }) else none
   | .userClose err =>
     if s.cfg.keep = true ∧ (c.hj = .running ∨ c.hj = .returned) then some (closeS s c err, closeC c) else none
+  | .dupClose => if c.reg = false then some (s, c) else none
 
 /-- one atomic step; `none` = the event is not enabled in this state -/
 def step (s : State) : Ev → Option State
